@@ -50,7 +50,7 @@ func VerifC15HttpSubFraming() {
 		found := false
 		for next < k && !found {
 			same := len(payload) == len(units[next])
-			for j := 0; j < n && same; j++ {
+			for j := 0; j < n; j++ { // no early exit: one decision per unit, not per byte
 				same = vrt.And(same, payload[j] == units[next][j])
 			}
 			next++
